@@ -1,6 +1,6 @@
 (* C09 — alternative routes agree; zone files round-trip.
    The zone-line format is regenerated from StructureSimilarity._write_zone (Generated_zone.v). *)
-From Verif Require Import PyLib ModelTypes Generated_zone Model_contact Model_superpose Model_zone Model_rmsd Proofs_zone Proofs_routes.
+From Verif Require Import PyLib ModelTypes Generated_zone Model_contact Model_superpose Model_zone Model_rmsd Proofs_zone Proofs_routes Proofs_contact_c05 Proofs_zone_source.
 Open Scope string_scope.
 
 (* every chain identifier that is one character, not blank and not '-', and EVERY integer residue
@@ -47,6 +47,15 @@ Theorem C09_irmsd_routes_agree_partial : forall rmat z check enforce decoy ref m
   irmsd_sql rmat (izone_rows_from_zone z ref) decoy ref = Ok m' -> (m == m')%Q.
 Proof. exact irmsd_routes_agree. Qed.
 Print Assumptions C09_irmsd_routes_agree_partial.
+
+(* the SQL i-RMSD and the zone source: the reference rows the routine selects when it computes the interface itself
+   (izone=None) are the rows it selects from the zone compute_izone produces (the content of the zone file, by
+   C09_zone_source_irrelevant) — for any two-chain reference whose residue numbers designate one residue per chain *)
+Theorem C09_sql_zone_source_irrelevant : forall cutoff ref c1 c2, (0 <= cutoff)%Q -> wf ref -> get_chains ref = [c1; c2] ->
+  (forall a b, In a ref -> In b ref -> chain a = chain b -> resSeq a = resSeq b -> resName a = resName b) ->
+  (do z <- compute_izone cutoff ref; Ok (izone_rows_from_zone z ref)) = izone_rows_computed cutoff ref.
+Proof. exact sql_rows_from_computed_zone. Qed.
+Print Assumptions C09_sql_zone_source_irrelevant.
 
 (* PARTIAL: for structures that are not aligned (missing atoms, permuted records) fast = SQL follows from C07 (both
    routes pair by identity — the fast one only under the same-relative-order condition, F6 — and report the kernel
